@@ -268,6 +268,9 @@ theorem Db.step11_cacheOk (s : Db V P) (op : Op11 V P) (h : s.CacheOk) : (s.step
   | setValue o vres =>
     exact Db.cacheOk_modChar s o _ (fun c i hc => Char.cacheOk_setValue c vres i hc)
       (fun c => Char.obj_setValue c vres) h
+  | assignValue o v =>
+    exact Db.cacheOk_modChar s o _ (fun c i _ => Char.cacheOk_setVal c v i)
+      (fun c => Char.obj_setVal c v) h
   | clientUpdate o vres cb =>
     exact Db.cacheOk_modChar s o _ (fun c i hc => Char.cacheOk_clientUpdate c vres cb i hc)
       (fun c => Char.obj_clientUpdate c vres cb) h
